@@ -971,6 +971,10 @@ pub fn replay_main(prop: &dyn Prop, path: &str) -> i32 {
             } else {
                 // perhaps it needs what the process did before: re-run the worker's cases up to the recorded one, in a
                 // fresh process (this one has already run the case once)
+                if std::env::var("VERIF_REPLAY_NO_HISTORY").map(|v| v == "1").unwrap_or(false) {
+                    println!("replay: recorded violation not reproduced");
+                    return 0;
+                }
                 let out = std::env::current_exe().ok().and_then(|exe| {
                     Command::new(exe).arg(prop.id()).arg("--replay-history").arg(path).stdin(Stdio::null()).stderr(Stdio::inherit()).output().ok()
                 });
@@ -1109,6 +1113,9 @@ pub fn coordinator_main(prop: &dyn Prop, tier: Tier, seed: u64) -> i32 {
 
     let replay_dir = format!("{VERIF_ROOT}/replays/{id}");
     let mut violation_lines = vec![];
+    let mut unconfirmed: Vec<String> = vec![];
+    let mut extended_replays_left = 24u32;
+    let mut history_fallbacks_left = 6u32;
     for (sig, sa) in &new_sigs {
         let _ = std::fs::create_dir_all(&replay_dir);
         let path = format!("{replay_dir}/{}.json", sanitize(sig));
@@ -1138,11 +1145,20 @@ pub fn coordinator_main(prop: &dyn Prop, tier: Tier, seed: u64) -> i32 {
         let mut confirmations = 0;
         let mut replays = 0;
         while replays < 8 {
+            // the extra replays are bounded over the whole run, and only the first two may fall back on re-running the
+            // worker's history (a run with dozens of order-dependent signatures would otherwise take an hour to say so)
+            if replays >= 2 {
+                if extended_replays_left == 0 {
+                    break;
+                }
+                extended_replays_left -= 1;
+            }
             replays += 1;
             let out = Command::new(&exe)
                 .arg(id)
                 .arg("--replay")
                 .arg(&path)
+                .env("VERIF_REPLAY_NO_HISTORY", if replays > 2 || history_fallbacks_left == 0 { "1" } else { "0" })
                 .stdin(Stdio::null())
                 .stderr(Stdio::null())
                 .output();
@@ -1158,6 +1174,9 @@ pub fn coordinator_main(prop: &dyn Prop, tier: Tier, seed: u64) -> i32 {
                 break;
             }
         }
+        if confirmations < replays.min(2) && history_fallbacks_left > 0 {
+            history_fallbacks_left -= 1;
+        }
         if confirmations == replays {
             violation_lines.push(format!("VIOLATION property={id} replay={path}"));
         } else if confirmations > 0 {
@@ -1167,9 +1186,19 @@ pub fn coordinator_main(prop: &dyn Prop, tier: Tier, seed: u64) -> i32 {
             println!("NOTE: {sig} was observed in the run and reproduced {confirmations}/{replays} times on replay (the observation is the counterexample)");
             violation_lines.push(format!("VIOLATION property={id} replay={path}"));
         } else {
-            machinery.push(format!(
-                "violation {sig} reproduced {confirmations}/{replays} times on replay ({path}): not deterministic"
-            ));
+            unconfirmed.push(format!("violation {sig} reproduced {confirmations}/{replays} times on replay ({path}): not deterministic"));
+        }
+    }
+    // signatures that were seen in the run but never again on replay: beside confirmed violations they are noted (the run
+    // has its verdict, and the replay budget is bounded); alone they mean the machinery cannot stand by what it saw
+    if violation_lines.is_empty() {
+        machinery.extend(unconfirmed);
+    } else {
+        for u in unconfirmed.iter().take(10) {
+            println!("NOTE: {u}");
+        }
+        if unconfirmed.len() > 10 {
+            println!("NOTE: ... and {} more signatures seen in the run and not again on replay", unconfirmed.len() - 10);
         }
     }
 
